@@ -428,6 +428,81 @@ def used_then_dropped(r):
     return desc, [k for k, ref in refs.items() if ref() is not None]
 
 
+def desc_of(kind, params):
+    return f"{kind}({params})"
+
+
+def op_spellings(r):
+    """One parametrisation of an op requested through every spelling the constructor accepts (all positional, trailing
+    defaults omitted, keywords, the method / function API on a lazy funsor) and through pickle / deepcopy: one live object,
+    carrying exactly the requested parameters (None included)."""
+    import copy
+    import pickle
+
+    import funsor.interpretations as I
+    from funsor import Reals, Variable, ops
+    from funsor.terms import Unary
+
+    kind = r.choice(["SumOp", "ProdOp", "AmaxOp", "AminOp", "LogsumexpOp", "MeanOp", "StdOp", "VarOp", "GetsliceOp", "FlipOp", "UnsqueezeOp", "ReshapeOp", "ArgmaxOp", "ArgminOp"])
+    cls = getattr(ops, kind, None)
+    if cls is None:
+        return kind, None
+    if kind == "GetsliceOp":
+        params = {"index": r.choice([None, 2, slice(1, 3), (None, slice(None)), Ellipsis, (slice(None), None)])}
+    elif kind == "FlipOp":
+        params = {"axis": r.choice([None, 0, (0, 1), -1])}
+    elif kind == "UnsqueezeOp":
+        params = {"dim": r.choice([0, 1, -1])}
+    elif kind == "ReshapeOp":
+        params = {"shape": r.choice([(6,), (2, 3), (3, 2)])}
+    elif kind in ("ArgmaxOp", "ArgminOp"):
+        params = {"axis": r.choice([None, 0, 1, -1]), "keepdims": r.choice([False, False, True])}
+    elif kind in ("StdOp", "VarOp"):
+        params = {"axis": r.choice([None, 0, 1, (0, 1)]), "keepdims": r.choice([False, False, True]), "ddof": r.choice([0, 0, 1])}
+    else:
+        params = {"axis": r.choice([None, 0, 1, (0, 1), -1]), "keepdims": r.choice([False, False, True])}
+    defaults = dict(cls().defaults)  # the default instance: parameter names in signature order, with their defaults
+    names = [k for k in defaults if k in params]
+    if set(names) != set(params):
+        return desc_of(kind, params), None
+    full = cls(*[params[n] for n in names])
+    desc = desc_of(kind, params)
+    got = {k: v for k, v in dict(full.defaults).items() if k in params}
+    if got != params or any(type(got[k]) is not type(params[k]) for k in params):
+        return desc, f"parameters: requested {params}, the op carries {got}"
+    variants = {"keywords": cls(**params)}
+    # trailing parameters left at their defaults
+    trail = list(names)
+    while trail and trail[-1] in defaults and defaults[trail[-1]] == params[trail[-1]] and type(defaults[trail[-1]]) is type(params[trail[-1]]):
+        trail.pop()
+        variants[f"positional-{len(trail)}"] = cls(*[params[n] for n in trail])
+        if trail:
+            variants[f"mixed-{len(trail)}"] = cls(*[params[n] for n in trail[:-1]], **{trail[-1]: params[trail[-1]]})
+    variants["pickle"] = pickle.loads(pickle.dumps(full))
+    variants["pickle-2"] = pickle.loads(pickle.dumps(full, 2))
+    variants["deepcopy"] = copy.deepcopy(full)
+    if kind in ("SumOp", "ProdOp", "AmaxOp", "AminOp", "LogsumexpOp", "MeanOp"):
+        x = Variable("hv", Reals[2, 3])
+        with I.reflect:
+            t1 = Unary(full, x)
+            meth = {"SumOp": "sum", "ProdOp": "prod", "AmaxOp": "max", "AminOp": "min", "LogsumexpOp": "logsumexp", "MeanOp": "mean"}[kind]
+            try:
+                t2 = getattr(x, meth)(*[params[n] for n in trail]) if hasattr(x, meth) else None
+            except Exception:  # noqa: BLE001
+                t2 = None
+        if t2 is not None and isinstance(t2, Unary):
+            variants["method-api"] = t2.op
+            if t2 is not t1:
+                return desc, f"method-api: x.{meth}(...) and Unary(op, x) under reflect are different terms"
+        tb = pickle.loads(pickle.dumps(t1))
+        if tb is not t1:
+            return desc, "pickle of a lazy term holding the op returned a different term"
+    for how, other in variants.items():
+        if other is not full:
+            return desc, f"{how}: a second live op {other!r} with parameters {dict(other.defaults)} (first: {dict(full.defaults)})"
+    return desc, None
+
+
 def domain_round_trip(r):
     import copy
     import pickle
@@ -493,7 +568,7 @@ class C07(Prop):
         term must all be dead after gc.collect(); (b) domains of every documented form (Bint[n], Bint[n, *shape], Reals[shape],
         Array[dtype, shape], Product) and variables over them survive pickle / deepcopy as the identical object."""
         n = 40 if tier == "quick" else 600
-        for scenario in ("used_then_dropped", "domain_round_trip"):
+        for scenario in ("used_then_dropped", "domain_round_trip", "op_spellings"):
             for it in range(n):
                 case = {"scenario": scenario, "rseed": (seed * 1000 + shard) * 10000 + it}
                 stt.evaluations += 1
@@ -516,6 +591,15 @@ class C07(Prop):
             if alive:
                 raise Violation("used-object-not-reclaimed|" + desc[0] + "|" + ",".join(alive), f"{desc}: still alive after every handle was dropped and gc.collect(): {alive}")
             stt.mark_nontrivial(case_hash({"utd": repr(desc)}))
+        elif case["scenario"] == "op_spellings":
+            try:
+                desc, problem = op_spellings(r)
+            except Exception as e:  # noqa: BLE001
+                raise Decline("op-spellings-raised:" + type(e).__name__ + ":" + str(e)[:60])
+            stt.count("op-spellings:" + desc.split("(")[0])
+            if problem:
+                raise Violation("op-spellings|" + desc.split("(")[0] + "|" + problem.split(":")[0], f"{desc}: {problem}")
+            stt.mark_nontrivial(case_hash({"ops": desc}))
         else:
             try:
                 desc, problem = domain_round_trip(r)
